@@ -376,6 +376,55 @@ def gen_random(rng, kind, maxlen):
     return hist + complete(kind, model, rng)
 
 
+def special_port_probes(rec):
+    """Ports whose names are those of the instance's own attributes (`name`, `of`, `conns`, a private `_en`): connect-by-assignment and
+    connect-by-call either make the connection or refuse loudly; whatever was accepted last is what is built."""
+    import hdl21 as h
+
+    for pname in ("name", "of", "conns", "_en", "connect", "portrefs"):
+        for form in ("setattr", "call", "connect"):
+            rec.count("probe.special-port-names")
+            case = {"kind": "special-port", "port": pname, "form": form}
+            rec.case(key=jhash(case), nontrivial=True, sample=None)
+            try:
+                X = h.ExternalModule(name=f"Sp{next(build._counter)}", port_list=[h.Port(name=pname), h.Port(name="q")], paramtype=h.HasNoParams)
+            except Exception:
+                continue  # (the port name itself is refused)
+            m = h.Module(name=f"SpTop{next(build._counter)}")
+            m.add(h.Signal(), name="s1")
+            m.add(h.Signal(), name="s2")
+            m.add(h.Signal(), name="t")
+            i = h.Instance(of=X())
+            last = None
+            try:
+                i.connect(pname, m.s1)
+                last = "s1"
+                i.connect("q", m.t)
+            except Exception:
+                continue
+            try:
+                if form == "setattr":
+                    setattr(i, pname, m.s2)
+                elif form == "call":
+                    i(**{pname: m.s2})
+                else:
+                    i.connect(pname, m.s2)
+                last = "s2"
+            except Exception:
+                rec.count("ops.refused")
+            try:
+                m.add(i, name="x")
+                pkg = h.to_proto(m)
+            except Exception as e:
+                rec.violation(f"valid-final-mapping-rejected:{type(e).__name__}", f"instance with a port named `{pname}`, re-connected by {form}: export raised "
+                                                                                  f"{type(e).__name__}: {str(e)[:100]}", case=case, target="special-port")
+                continue
+            got = {c.portname: c.target.sig for inst in pkg.modules[-1].instances for c in inst.connections}
+            if got.get(pname) != last:
+                rec.violation("history-leaves-trace", f"port `{pname}` was last connected (by {form}) to {last}, the package ties it to {got.get(pname)!r}",
+                              case=case, target="special-port", replaced_kinds="sig")
+
+
 def run(ctx, rec):
     rng = ctx.rng("c04")
     cases = []
@@ -422,6 +471,8 @@ def run(ctx, rec):
         if hist and hist[1:2] and hist[1][1] == "r:x" and len(hist) > 2 and hist[2][1] == "a" and i % 3 != 1:
             run_history(rec, kind, hist, observe=True)
 
+    if ctx.shard == 0:
+        special_port_probes(rec)
     rec.exhaustive = False
     rec.extra["kind_sequences_enumerated"] = len(seqs)
 
@@ -432,6 +483,9 @@ def shards(ctx):
 
 def replay(ctx, rec, case):
     # re-install the concrete expressions
+    if case.get("kind") == "special-port":
+        special_port_probes(rec)
+        return
     kind = case["target"]
     hist = [(f, p, k) for f, p, k, _ in case["ops"]]
     run_history(rec, kind, hist, sample=True, observe=bool(case.get("observe")))
